@@ -139,9 +139,16 @@ class SourceFile:
         # full disk) does not leave a truncated test file behind.
         target = pathlib.Path(os.path.realpath(self.filename))
         tmp_file = target.with_name(f".{target.name}.inline-snapshot.tmp")
+
+        data = new_code.encode()
+        original = target.read_bytes()
+        if b"\r\n" in original and b"\n" not in original.replace(b"\r\n", b""):
+            # the file uses windows line endings, which are translated to "\n" when it is read
+            data = data.replace(b"\r\n", b"\n").replace(b"\n", b"\r\n")
+
         try:
             with open(tmp_file, "bw") as code:
-                code.write(new_code.encode())
+                code.write(data)
             shutil.copymode(target, tmp_file)
             os.replace(tmp_file, target)
         except BaseException:
